@@ -40,6 +40,19 @@ ProbeIds(code) == LET s == SelectSeq(code, LAMBDA x : x.o = "probe") IN [i \in D
 Fire(P, mode, site) == ProbeIds(CodeAt(P, mode, site))
 Has(P, mode, site)  == \E i \in Acc(P) : P[i].mode = mode /\ P[i].site = site
 
+\* Replacement code at a site when replacements and removals were both requested there: a removal
+\* (empty_alternate / empty_block_alt) discards what earlier calls put there, a later replacement adds again
+\* ("the last request decides"; both injection paths of the library reset the list on removal).
+RECURSIVE AltCodeR(_, _, _, _, _, _)
+AltCodeR(P, i, mode, emode, site, acc) ==
+    IF i > Len(P) THEN acc
+    ELSE AltCodeR(P, i + 1, mode, emode, site,
+                  IF P[i].acc /\ P[i].site = site /\ P[i].mode = emode THEN <<>>
+                  ELSE IF P[i].acc /\ P[i].site = site /\ P[i].mode = mode THEN acc \o P[i].code
+                  ELSE acc)
+AltCode(P, site)      == AltCodeR(P, 1, "alternate", "empty_alternate", site, <<>>)
+BlockAltCode(P, site) == AltCodeR(P, 1, "block_alt", "empty_block_alt", site, <<>>)
+
 ---------------------------------------------------------------------------
 \* C15 / C21: the spliced sequence
 \* region removed by a block-alternate at 1-based index i
@@ -55,11 +68,11 @@ Enclosed(B, jt, P, i) ==
 
 Piece(B, jt, P, j) ==
     IF IsAltStart(P, j) /\ ~Enclosed(B, jt, P, j) /\ (B[j].o \in Openers \/ B[j].o = "else")
-    THEN CodeAt(P, "block_alt", j - 1)
+    THEN BlockAltCode(P, j - 1)
     ELSE IF InRegion(B, jt, P, j) THEN <<>>
     ELSE CodeAt(P, "before", j - 1)
          \o (IF Has(P, "alternate", j - 1) \/ Has(P, "empty_alternate", j - 1)
-             THEN (IF j = Len(B) THEN <<B[j]>> ELSE CodeAt(P, "alternate", j - 1))
+             THEN (IF j = Len(B) THEN <<B[j]>> ELSE AltCode(P, j - 1))
              ELSE <<B[j]>>)
          \o (IF j = Len(B) THEN <<>> ELSE CodeAt(P, "after", j - 1))
 
